@@ -11,6 +11,19 @@ for d in sorted(glob.glob('/verif/seeded/C*-m*')):
         m = re.match(r'(C\d+) exit=(\d+) violations=(\d+)\s*(.*)', l)
         if m: det[m.group(1)] = {'exit': int(m.group(2)), 'violations': int(m.group(3)), 'categories': m.group(4).strip()}
     meta['detection'] = det
+    # what the change needs in order to manifest: the README section that says so
+    readme = open(f'{d}/README.md').read().splitlines()
+    needs = []
+    for i, l in enumerate(readme):
+        if l.startswith('#') and re.search(r'need|manifest|trigger|narrow', l, re.I):
+            for k in readme[i + 1:]:
+                if k.startswith('#'): break
+                if k.strip(): needs.append(k.strip())
+            break
+    if not needs:
+        needs = [l.strip() for l in readme if re.search(r'\bneed|only when|only if|requires', l, re.I)][:6]
+    text = ' '.join(needs)
+    meta['needs_to_manifest'] = text[:900] + ('…' if len(text) > 900 else '')
     meta['caught_by'] = sorted(k for k, v in det.items() if v['exit'] == 1)
     meta['caught_by_target_check'] = meta['breaks_property'] in meta['caught_by']
     json.dump(meta, open(f'{d}/meta.json', 'w'), indent=1)
